@@ -3,7 +3,7 @@ import os
 
 from vlib import Infra, read_ndjson
 
-MC_CFG = "SPECIFICATION Spec\nCONSTANTS\n  Deep = %s\nINVARIANTS A_DetachedIgnored A_LinesAreDirectives A_Order A_MarkerIsLine\nCHECK_DEADLOCK FALSE\n"
+MC_CFG = "SPECIFICATION Spec\nCONSTANTS\n  Deep = %s\nINVARIANTS A_DetachedIgnored A_MethodTrailingIgnored A_LinesAreDirectives A_Order A_MarkerIsLine\nCHECK_DEADLOCK FALSE\n"
 
 
 def check_C19(run):
